@@ -253,6 +253,40 @@ def execute(sc, ctx):
         if other:
             ctx.violate({"kind": "unexpected-output", "cmd": "info -sf"}, desc + f": {other[:3]}")
             return
+    # --- several -sf arguments in one call: files of one history, the one with the fewest records first
+    def lines_for(fp_, hr_):
+        relp_ = os.path.relpath(fp_, hr_)
+        return [(num, m["creatorinfo"]["creationdate"], e["fmt"], e["digest"], e["action"])
+                for num, name, m in views[hr_].generations for rec in m["files"] if rec["path"] == relp_ for e in rec["entries"]]
+
+    groups = {}
+    for fp in allfiles:
+        hr = observe.deepest_history_for(fp, roots)
+        if hr is not None:
+            groups.setdefault(hr, []).append(fp)
+    multi = [(hr, fs) for hr, fs in sorted(groups.items()) if len(fs) >= 2]
+    if multi:
+        hr, fs = multi[sc["probe_seed"] % len(multi)]
+        fs = sorted(fs, key=lambda p_: (len(lines_for(p_, hr)), core.h64(sc["probe_seed"], "multi", os.path.relpath(p_, w.root))))
+        fs = [fs[0]] + fs[-2:] if len(fs) > 2 else fs
+        argv = ["info"]
+        for fp in fs:
+            argv += ["-sf", fp]
+        r = w.run_cmd(argv, cwd=w.mount)
+        ctx.evaluations += 1
+        desc = f"info {' '.join('-sf ' + repr(os.path.relpath(f_, w.root)) for f_ in fs)} -> {r.brief()}"
+        if r.outcome != ("exit", 0):
+            ctx.violate({"kind": "wrong-exit", "cmd": "info -sf -sf", "cause": r.extra.get("abort_type", r.brief())}, desc + " " + r.stderr[-200:])
+            return
+        want_all = sorted(x for fp in fs for x in lines_for(fp, hr))
+        got_all = sorted((int(mm.group(1)), mm.group(2), mm.group(3), mm.group(4), mm.group(5))
+                         for mm in (SF_LINE.match(line) for line in r.stdout.split("\n")) if mm)
+        ctx.state("info-sf-multi", len(fs), min(len(want_all), 8))
+        if got_all != want_all:
+            ctx.violate({"kind": "file-lines-differ", "cmd": "info -sf -sf", "cause": "missing" if len(got_all) < len(want_all) else "other"},
+                        desc + f": printed {len(got_all)} lines, the manifests hold {len(want_all)}: missing {[x for x in want_all if x not in got_all][:3]}")
+            return
+        ctx.probe("info_with_several_sf_arguments")
     ctx.absorb_world(w)
     ctx.sample = [o["argv"] if scen.is_cmd(o) else o for o in sc["ops"]][:8]
 
